@@ -224,9 +224,9 @@ instance (s : State) (o : Op) : Decidable (pre dig s o) := by
   cases o <;> simp only [pre] <;> exact inferInstance
 
 theorem addBegin_stored_of_out (r : Retry.State) (k : Key) (d : Nat)
-    (h : (Retry.stepO r (.addBegin k d)).2 = .addedPending ∨ (Retry.stepO r (.addBegin k d)).2 = .addedFailed ∨
-      (Retry.stepO r (.addBegin k d)).2 = .dup) :
-    k ∈ Retry.keys (Retry.stepO r (.addBegin k d)).1.rows := by
+    (h : (Retry.stepO r (.addBegin k d [])).2 = .addedPending ∨ (Retry.stepO r (.addBegin k d [])).2 = .addedFailed ∨
+      (Retry.stepO r (.addBegin k d [])).2 = .dup) :
+    k ∈ Retry.keys (Retry.stepO r (.addBegin k d [])).1.rows := by
   simp only [Retry.stepO] at h ⊢
   cases hm : r.mode <;> simp only [hm] at h ⊢
   · by_cases hh : Retry.hasKey r.rows k = true
@@ -404,29 +404,29 @@ theorem step_inv (s : State) (o : Op) (h : Inv dig s) (hp : pre dig s o) : Inv d
       | add =>
         simp only
         have hs0 : Safe0 dig s k := by simpa [ThreadOk, hpc, hk0] using hold
-        have hgood : Retry.Good (Retry.stepO s.r (.addBegin k t0.delay)).1 := Retry.step_good _ _ h.good
-        have hkeep : ∀ x, stored s x → x ∈ Retry.keys (Retry.stepO s.r (.addBegin k t0.delay)).1.rows :=
+        have hgood : Retry.Good (Retry.stepO s.r (.addBegin k t0.delay [])).1 := Retry.step_good _ _ h.good
+        have hkeep : ∀ x, stored s x → x ∈ Retry.keys (Retry.stepO s.r (.addBegin k t0.delay [])).1.rows :=
           fun x hx => kept_of_ne_finish _ _ _ hx (by simp) (by intro inv h; cases h)
-        have hdrop : Inv dig { s with r := (Retry.stepO s.r (.addBegin k t0.delay)).1, wb := dropThread s.wb k } :=
+        have hdrop : Inv dig { s with r := (Retry.stepO s.r (.addBegin k t0.delay [])).1, wb := dropThread s.wb k } :=
           ⟨hgood, fun x hx => Safe1.mono dig (h.acked x hx) (fun _ h => h) id id (hkeep x),
            fun t ht => ThreadOk.mono dig (h.thr t (mem_dropThread ht)) (fun _ h => h) id id (hkeep _), h.nofc⟩
         have hnext : ∀ pc', pc' ≠ .setPersist → pc' ≠ .add →
-            k ∈ Retry.keys (Retry.stepO s.r (.addBegin k t0.delay)).1.rows →
-            Inv dig { s with r := (Retry.stepO s.r (.addBegin k t0.delay)).1, wb := setPc s.wb k pc' } := by
+            k ∈ Retry.keys (Retry.stepO s.r (.addBegin k t0.delay [])).1.rows →
+            Inv dig { s with r := (Retry.stepO s.r (.addBegin k t0.delay [])).1, wb := setPc s.wb k pc' } := by
           intro pc' h1 h2 hst
           refine ⟨hgood, fun x hx => Safe1.mono dig (h.acked x hx) (fun _ h => h) id id (hkeep x), ?_, h.nofc⟩
           intro t ht
           rcases mem_setPc hf ht with ht | rfl
           · exact ThreadOk.mono dig (h.thr t ht) (fun _ h => h) id id (hkeep _)
-          · have : Safe1 dig { s with r := (Retry.stepO s.r (.addBegin k t0.delay)).1, wb := setPc s.wb k pc' } k := by
+          · have : Safe1 dig { s with r := (Retry.stepO s.r (.addBegin k t0.delay [])).1, wb := setPc s.wb k pc' } k := by
               rcases hs0 with hb | ⟨hc, hq⟩
               · exact Or.inl hb
               · exact Or.inr ⟨hc, hq, hst⟩
             cases pc' <;> simp_all [ThreadOk]
-        cases hout : Retry.stepO s.r (.addBegin k t0.delay) with
+        cases hout : Retry.stepO s.r (.addBegin k t0.delay []) with
         | mk r' out =>
-          have hr' : r' = (Retry.stepO s.r (.addBegin k t0.delay)).1 := by rw [hout]
-          have ho' : out = (Retry.stepO s.r (.addBegin k t0.delay)).2 := by rw [hout]
+          have hr' : r' = (Retry.stepO s.r (.addBegin k t0.delay [])).1 := by rw [hout]
+          have ho' : out = (Retry.stepO s.r (.addBegin k t0.delay [])).2 := by rw [hout]
           cases out <;> simp only <;> rw [hr']
           case addedPending => exact hnext .enq (by simp) (by simp) (addBegin_stored_of_out _ _ _ (Or.inl ho'.symm))
           case addedFailed => exact hnext .generate (by simp) (by simp) (addBegin_stored_of_out _ _ _ (Or.inr (Or.inl ho'.symm)))
